@@ -286,6 +286,7 @@ class DocutilsRenderer(RendererProtocol):
         inline: bool = False,
         temp_root_node: None | nodes.Element = None,
         heading_offset: int | None = None,
+        allow_front_matter: bool = False,
     ) -> None:
         """Render unparsed text (appending to the current node).
 
@@ -295,12 +296,17 @@ class DocutilsRenderer(RendererProtocol):
         :param temp_root_node: If set, allow sections to be created as children of this node
         :param heading_offset: offset heading levels by this amount
             (if None, keep the offset of the enclosing render)
+        :param allow_front_matter: the text is a whole file, which can start with
+            front matter (that is discarded); elsewhere `---` is a thematic break
         """
-        tokens = (
-            self.md.parseInline(text, self.md_env)
-            if inline
-            else self.md.parse(text + "\n", self.md_env)
-        )
+        if inline:
+            tokens = self.md.parseInline(text, self.md_env)
+        elif allow_front_matter:
+            tokens = self.md.parse(text + "\n", self.md_env)
+        else:
+            with self.md.reset_rules():
+                self.md.disable("front_matter", True)
+                tokens = self.md.parse(text + "\n", self.md_env)
 
         # remove front matter, if present, e.g. from included documents
         if tokens and tokens[0].type == "front_matter":
